@@ -1,7 +1,7 @@
 (** Dispatch2.v — entry points of the models added after Dispatch.v (DER/token keys, hashes, key blinding, ...).
     [dispatch2] is what the OCaml runner calls; unknown names fall through to [dispatch]. *)
 From Coq Require Import Strings.String.
-From PatVerif Require Import Base.GoSem Model.Dispatch Model.TokenKey Model.Codecs Model.Derive Model.Ed25519 Model.Fe Model.TokenVerify Model.Ecdsa Model.BatchIssuer Base.Mem Base.Conc Model.Frontends Model.RateLimited.
+From PatVerif Require Import Base.GoSem Model.Dispatch Model.TokenKey Model.Codecs Model.Derive Model.Ed25519 Model.Fe Model.EdPoint Model.TokenVerify Model.Ecdsa Model.BatchIssuer Base.Mem Base.Conc Model.Frontends Model.RateLimited.
 Open Scope N_scope.
 
 Definition out_z (z : Z) : list (list byte) :=
@@ -205,6 +205,27 @@ Definition dispatch_fe (name : list byte) (a : list (list byte)) : option (list 
     let c := flag (arg a 2) in Some [fe_to_bytes40 (fe_select y x c); fe_to_bytes40 (fe_select x y c)]
   else None.
 
+(** the points of Model/EdPoint.v; points travel as their 32-byte encodings, scalars as 32 bytes little-endian *)
+Definition pt_out (o : option point) : list (list byte) :=
+  match o with Some p => [st_ok; pt_bytes p] | None => [st_none] end.
+Definition pt_bin (f : point -> point -> point) (a b : list byte) : list (list byte) :=
+  match pt_set_bytes a, pt_set_bytes b with Some p, Some q => [st_ok; pt_bytes (f p q)] | _, _ => [st_none] end.
+Definition dispatch_pt (name : list byte) (a : list (list byte)) : option (list (list byte)) :=
+  if is name "pt_decode" then Some (pt_out (pt_set_bytes (arg a 0)))
+  else if is name "pt_add" then Some (pt_bin pt_add (arg a 0) (arg a 1))
+  else if is name "pt_sub" then Some (pt_bin pt_sub (arg a 0) (arg a 1))
+  else if is name "pt_double" then Some (pt_out (option_map pt_double (pt_set_bytes (arg a 0))))
+  else if is name "pt_neg" then Some (pt_out (option_map pt_neg (pt_set_bytes (arg a 0))))
+  else if is name "pt_equal" then
+    Some (match pt_set_bytes (arg a 0), pt_set_bytes (arg a 1) with
+          | Some p, Some q => [st_ok; fe_flag (pt_equal p q)] | _, _ => [st_none] end)
+  else if is name "pt_mul" then Some (pt_out (option_map (pt_mul (le_val (arg a 0))) (pt_set_bytes (arg a 1))))
+  else if is name "pt_base_mul" then Some [pt_bytes (pt_mul (le_val (arg a 0)) ed_base)]
+  else if is name "edm_public" then Some [edm_public (arg a 0)]
+  else if is name "edm_sign" then Some [edm_sign (arg a 0) (arg a 1)]
+  else if is name "edm_verify" then Some [fe_flag (edm_verify (arg a 0) (arg a 1) (arg a 2))]
+  else None.
+
 Definition dispatch2 (name : list byte) (a : list (list byte)) : list (list byte) :=
   match dispatch_tokenkey name a with Some r => r | None =>
   match dispatch_derive name a with Some r => r | None =>
@@ -215,4 +236,5 @@ Definition dispatch2 (name : list byte) (a : list (list byte)) : list (list byte
   match dispatch_mem name a with Some r => r | None =>
   match dispatch_conc name a with Some r => r | None =>
   match dispatch_fin name a with Some r => r | None =>
-  match dispatch_fe name a with Some r => r | None => dispatch name a end end end end end end end end end end.
+  match dispatch_fe name a with Some r => r | None =>
+  match dispatch_pt name a with Some r => r | None => dispatch name a end end end end end end end end end end end.
